@@ -13,6 +13,7 @@ package vsched
 
 import (
 	"fmt"
+	"runtime"
 	"time"
 	"unsafe"
 )
@@ -581,6 +582,7 @@ type Daemon struct {
 	id        int
 	adopted   uint32
 	cancelled bool
+	started   bool // the goroutine has reached its idle point at least once
 }
 
 // NewDaemon creates the control block for a daemon goroutine.
@@ -591,6 +593,7 @@ func NewDaemon() *Daemon {
 // Park is called by the daemon goroutine when it goes idle. It returns true when
 // the daemon was given a tick and false when it was cancelled.
 func (d *Daemon) Park() bool {
+	d.setStarted()
 	if d.isCancelled() {
 		return false
 	}
@@ -613,6 +616,21 @@ func (d *Daemon) Park() bool {
 func (d *Daemon) isCancelled() bool { return d.cancelled }
 
 //go:norace
+func (d *Daemon) setStarted() { d.started = true }
+
+// Started reports whether the daemon goroutine exists and has reached its idle point
+// (a library that starts its background goroutine lazily has none until then). A
+// goroutine that was just spawned is given the processor first.
+//
+//go:norace
+func (d *Daemon) Started() bool {
+	for i := 0; i < 64 && !d.started; i++ {
+		runtime.Gosched()
+	}
+	return d.started
+}
+
+//go:norace
 func (d *Daemon) isAdopted() bool { return d.adopted == s.exec && s.cur == d.id }
 
 //go:norace
@@ -623,18 +641,30 @@ func daemonPoint() {
 // Tick (sequential mode only) lets the daemon perform exactly one pass and returns
 // when it is idle again.
 func (d *Daemon) Tick() {
+	if !d.Started() {
+		return // no background goroutine: nothing performs a pass
+	}
 	select {
 	case <-d.parked:
 	default:
 	}
 	wakeup(d.wake)
-	<-d.parked
+	select {
+	case <-d.parked:
+	case <-time.After(60 * time.Second):
+		panic(fmt.Sprintf("vsched: daemon did not return to its idle point within 60s (started=%v cancelled=%v)", d.started, d.cancelled))
+	}
 }
 
-// WaitParked blocks until the daemon goroutine has reached its idle point once.
-func (d *Daemon) WaitParked() {
+// WaitParked blocks until the daemon goroutine has reached its idle point once; it
+// reports false when no such goroutine shows up (it may be started later).
+func (d *Daemon) WaitParked() bool {
+	if !d.Started() {
+		return false
+	}
 	<-d.parked
 	d.parked <- struct{}{}
+	return true
 }
 
 // Cancel makes the daemon leave its loop.
